@@ -397,4 +397,215 @@ theorem ecc_kepl_ecc_hyperbolic (mu a e i Ω ω H : ℝ) (h1 : 1 < e) :
     rw [← Real.tanh_eq_sinh_div_cosh, Real.artanh_tanh]
   simp only [keplToEcc, app6, eccToKepl, if_neg hne1, powi, sqrt, cos, sin, cosh, sinh, atanh, ← hcν, ← hsν, hcos, hsin, hcH, hsH, hat]
 
+/-! ## Kepler's equation: `Form.M2E` and eccentric ↔ mean anomaly -/
+
+/-- **Exit condition of the Kepler loop**, for every fuel, both conics, every start value: a returned value is a
+Newton update `next X` of some iterate `X` from which it differs by less than `tol`. -/
+theorem m2eLoop_exit (fuel : Nat) (e M X X1 R : ℝ) (hX : X1 = m2eNext X e M) (h : m2eLoop fuel e M X X1 = some R) :
+    ∃ Xp, R = m2eNext Xp e M ∧ |R - Xp| < m2eTol := by
+  induction fuel generalizing X X1 with
+  | zero => simp [m2eLoop] at h
+  | succ n ih =>
+    simp only [m2eLoop, m2eContinue, absR] at h
+    split_ifs at h with hc
+    · exact ih X1 (m2eNext X1 e M) rfl h
+    · refine ⟨X, ?_, ?_⟩
+      · rw [← hX]; exact (Option.some.inj h).symm
+      · rw [← Option.some.inj h]; exact not_le.mp hc
+
+theorem m2e_exit (fuel : Nat) (e M R : ℝ) (h : m2e fuel e M = some R) :
+    ∃ Xp, R = m2eNext Xp e M ∧ |R - Xp| < m2eTol :=
+  m2eLoop_exit fuel e M _ _ R rfl h
+
+theorem m2eTol_pos : (0 : ℝ) < m2eTol := by unfold m2eTol; norm_num
+
+/-- **Kepler-equation residual, ellipse** (`0 ≤ e < 1`), for every fuel and whatever the start branch: if `M2E`
+returns `E` then `|E − e sin E − M| < 2·tol·(1+e)`. -/
+theorem m2e_residual_elliptic (fuel : Nat) (e M R : ℝ) (h0 : 0 ≤ e) (h1 : e < 1) (h : m2e fuel e M = some R) :
+    |R - e * Real.sin R - M| < 2 * m2eTol * (1 + e) := by
+  obtain ⟨X, hR, hd⟩ := m2e_exit fuel e M R h
+  have hD : 0 < 1 - e * Real.cos X := by nlinarith [Real.neg_one_le_cos X, Real.cos_le_one X]
+  have hD2 : 1 - e * Real.cos X ≤ 1 + e := by nlinarith [Real.neg_one_le_cos X, Real.cos_le_one X]
+  simp only [m2eNext, if_pos h1, cos, sin] at hR
+  have hstep : (R - X) * (1 - e * Real.cos X) = M - X + e * Real.sin X := by
+    rw [hR]; field_simp; ring
+  have hres : |M - X + e * Real.sin X| < m2eTol * (1 + e) := by
+    rw [← hstep, abs_mul, abs_of_pos hD]
+    calc |R - X| * (1 - e * Real.cos X) ≤ |R - X| * (1 + e) := by gcongr
+      _ < m2eTol * (1 + e) := by gcongr
+  have hsin := Real.abs_sin_sub_sin_le R X
+  have key : R - e * Real.sin R - M = (R - X) - e * (Real.sin R - Real.sin X) - (M - X + e * Real.sin X) := by ring
+  rw [key]
+  have h3 : |e * (Real.sin R - Real.sin X)| ≤ e * |R - X| := by
+    rw [abs_mul, abs_of_nonneg h0]; gcongr
+  have hT := m2eTol_pos
+  calc |R - X - e * (Real.sin R - Real.sin X) - (M - X + e * Real.sin X)|
+      ≤ |R - X - e * (Real.sin R - Real.sin X)| + |M - X + e * Real.sin X| := abs_sub _ _
+    _ ≤ |R - X| + |e * (Real.sin R - Real.sin X)| + |M - X + e * Real.sin X| := by gcongr; exact abs_sub _ _
+    _ < 2 * m2eTol * (1 + e) := by nlinarith
+
+/-- **mean → eccentric → mean, ellipse**: the mean anomaly is reproduced within `2·tol·(1+e)` (tol = 1e-8 in the source). -/
+theorem mean_ecc_mean_elliptic (fuel : Nat) (mu a e i Ω ω M : ℝ) (h0 : 0 ≤ e) (h1 : e < 1) (c : List ℝ)
+    (h : meanToEcc fuel mu a e i Ω ω M = some c) :
+    ∃ M', app6 eccToMean mu c = [a, e, i, Ω, ω, M'] ∧ |M' - M| < 2 * m2eTol * (1 + e) := by
+  simp only [meanToEcc, Option.map_eq_some_iff] at h
+  obtain ⟨R, hR, rfl⟩ := h
+  refine ⟨R - e * Real.sin R, ?_, m2e_residual_elliptic fuel e M R h0 h1 hR⟩
+  simp only [app6, eccToMean, if_pos h1, sin]
+
+/-- **eccentric → mean → eccentric, ellipse**: Kepler's function `E ↦ E − e sin E` is strictly increasing with slope
+at least `1 − e`, so the eccentric anomaly returned by the solver is within `2·tol·(1+e)/(1−e)` of the original one
+— for every `E` (also negative or beyond 2π), every fuel, every start branch. -/
+theorem ecc_mean_ecc_elliptic (fuel : Nat) (mu a e i Ω ω E : ℝ) (h0 : 0 ≤ e) (h1 : e < 1) (c : List ℝ)
+    (h : (match eccToMean mu a e i Ω ω E with
+          | [a, e, i, Ω, ω, M] => meanToEcc fuel mu a e i Ω ω M
+          | _ => none) = some c) :
+    ∃ E', c = [a, e, i, Ω, ω, E'] ∧ |E' - E| < 2 * m2eTol * (1 + e) / (1 - e) := by
+  simp only [eccToMean, if_pos h1, sin, meanToEcc, Option.map_eq_some_iff] at h
+  obtain ⟨R, hR, rfl⟩ := h
+  refine ⟨R, rfl, ?_⟩
+  have hres := m2e_residual_elliptic fuel e _ R h0 h1 hR
+  have hsin := Real.abs_sin_sub_sin_le R E
+  have h1e : 0 < 1 - e := by linarith
+  rw [lt_div_iff₀ h1e]
+  have key : R - e * Real.sin R - (E - e * Real.sin E) = (R - E) - e * (Real.sin R - Real.sin E) := by ring
+  rw [key] at hres
+  have h3 : |e * (Real.sin R - Real.sin E)| ≤ e * |R - E| := by
+    rw [abs_mul, abs_of_nonneg h0]; gcongr
+  have h4 : |R - E| - |e * (Real.sin R - Real.sin E)| ≤ |R - E - e * (Real.sin R - Real.sin E)| := by
+    have := abs_sub_abs_le_abs_sub (R - E) (e * (Real.sin R - Real.sin E))
+    exact this
+  nlinarith
+
+/-- hyperbolic analogue (partial): what the exit test of the loop gives for `e ≥ 1` — the returned value is one Newton
+step `H + (M − e sinh H + H)/(e cosh H − 1)` away from an iterate `H` with `|step| < tol`, hence
+`|M − e sinh H + H| < tol·(e cosh H − 1)` at that iterate. A bound at the *returned* value needs a bound on `cosh`
+along the step and is not proved. -/
+theorem m2e_residual_hyperbolic_partial (fuel : Nat) (e M R : ℝ) (h1 : 1 < e) (h : m2e fuel e M = some R) :
+    ∃ H, R = H + (M - e * Real.sinh H + H) / (e * Real.cosh H - 1) ∧ |R - H| < m2eTol ∧
+      |M - e * Real.sinh H + H| < m2eTol * (e * Real.cosh H - 1) := by
+  obtain ⟨X, hR, hd⟩ := m2e_exit fuel e M R h
+  have hne1 : ¬ e < 1 := not_lt.mpr h1.le
+  have hD : 0 < e * Real.cosh X - 1 := by nlinarith [Real.one_le_cosh X]
+  simp only [m2eNext, if_neg hne1, cosh, sinh] at hR
+  refine ⟨X, hR, hd, ?_⟩
+  have hstep : (R - X) * (e * Real.cosh X - 1) = M - e * Real.sinh X + X := by
+    rw [hR]; field_simp; ring
+  rw [← hstep, abs_mul, abs_of_pos hD]
+  gcongr
+
+/-! ## invariance under the circle relation -/
+
+/-- **The circle relation on Ω, ω, ν is invisible in position and velocity**: `keplerian → cartesian` gives the same
+six numbers for keplerian elements whose angles are the same points of the circle. -/
+theorem keplToCart_respects_angEq (mu a e i Ω ω ν Ω' ω' ν' : ℝ) (hΩ : AngEq Ω' Ω) (hω : AngEq ω' ω) (hν : AngEq ν' ν) :
+    keplToCart mu a e i Ω' ω' ν' = keplToCart mu a e i Ω ω ν := by
+  have hu := hω.add hν
+  simp only [keplToCart, cos, sin, hΩ.1, hΩ.2, hν.1, hν.2, hu.1, hu.2]
+
+/-- same for the three anomaly-preserving views of the perigee/anomaly pair used by the circular form -/
+theorem keplToCirc_respects_angEq (mu a e i Ω ω ν ω' ν' : ℝ) (hω : AngEq ω' ω) (hν : AngEq ν' ν) :
+    ∃ u u', keplToCirc mu a e i Ω ω' ν' = [a, e * Real.cos ω, e * Real.sin ω, i, Ω, u'] ∧
+            keplToCirc mu a e i Ω ω ν = [a, e * Real.cos ω, e * Real.sin ω, i, Ω, u] ∧ AngEq u' u := by
+  refine ⟨fmod (ω + ν) (pi * 2), fmod (ω' + ν') (pi * 2), ?_, ?_, ?_⟩
+  · simp only [keplToCirc, cos, sin, hω.1, hω.2]
+  · simp only [keplToCirc, cos, sin]
+  · exact ((fmod_pi_two_angEq _).trans (hω.add hν)).trans (fmod_pi_two_angEq _).symm
+
+/-! ## Routing: the walk between two forms is the only one there is -/
+
+open BeyondVerif.Generated in
+/-- every link of the forms graph (regenerated in execution order) has a conversion method in both directions, and
+every conversion method lies on a link: the 18 `_a_to_b` methods are exactly the 9 links, both ways -/
+theorem edge_methods_are_links :
+    (formsHist.all (fun l => formsEdgeMethods.contains (l.1, l.2) && formsEdgeMethods.contains (l.2, l.1)) &&
+     formsEdgeMethods.all (fun m => formsHist.contains (m.1, m.2) || formsHist.contains (m.2, m.1)) &&
+     (formsEdgeMethods.length == 2 * formsHist.length)) = true := by
+  decide
+
+/-- the forms graph is a tree on the ten forms and `Node.path` returns, for all 100 ordered pairs, the unique simple
+chain (C20's theorem on the regenerated graph): "whichever intermediate forms are traversed" is the only walk there is -/
+theorem forms_walk_unique :
+    (Node.isForestHist Generated.formsN Generated.formsHist && (Generated.formsHist.length + 1 == Generated.formsN)
+      && Node.routingExact Generated.formsN Generated.formsHist) = true ∧ Generated.formsN = 10 :=
+  ⟨BeyondVerif.C20.forms_routing_exact, by decide⟩
+
+/-! ## Infos -/
+
+/-- `cos_fpa² + sin_fpa² = 1` on every conic with `p = a(1−e²) > 0` at every point with `r = p/(1+e cos ν) > 0`
+(false before the fix 2ffad5a, which divided by ν instead of v). -/
+theorem infos_fpa_components_unit (mu a e nu : ℝ) (hmu : 0 < mu) (hp : 0 < a * (1 - e ^ 2)) (hD : 0 < 1 + e * Real.cos nu) :
+    let r := a * (1 - e ^ 2) / (1 + e * Real.cos nu)
+    infosCosFpa mu r a e nu ^ 2 + infosSinFpa mu r a e nu ^ 2 = 1 := by
+  intro r
+  have ha : a ≠ 0 := by rintro rfl; simp at hp
+  have he : 1 - e ^ 2 ≠ 0 := by rintro h; rw [h] at hp; simp at hp
+  have hcs := Real.sin_sq_add_cos_sq nu
+  have hv2 : mu * (2 / r - 1 / a) = mu / (a * (1 - e ^ 2)) * ((1 + e * Real.cos nu) ^ 2 + (e * Real.sin nu) ^ 2) := by
+    simp only [r]; field_simp; linear_combination (-(e ^ 2)) * hcs
+  have hpos : 0 < mu * (2 / r - 1 / a) := by rw [hv2]; positivity
+  have hk : 0 ≤ mu / (a * (1 - e ^ 2)) := by positivity
+  simp only [infosCosFpa, infosSinFpa, infosV, powi, sqrt, cos, sin, div_pow, mul_pow, Real.sq_sqrt hk, Real.sq_sqrt hpos.le]
+  rw [← add_div, div_eq_one_iff_eq hpos.ne', hv2]; ring
+
+/-- flight-path angle: `sin_fpa / cos_fpa = e sin ν / (1 + e cos ν)` -/
+theorem infos_fpa_tan (mu r a e nu : ℝ) (hk : 0 < mu / (a * (1 - e ^ 2))) (hv : 0 < mu * (2 / r - 1 / a)) (hD : 1 + e * Real.cos nu ≠ 0) :
+    infosSinFpa mu r a e nu / infosCosFpa mu r a e nu = e * Real.sin nu / (1 + e * Real.cos nu) := by
+  have h1 : Real.sqrt (mu / (a * (1 - e ^ 2))) ≠ 0 := (Real.sqrt_pos.mpr hk).ne'
+  have h2 : Real.sqrt (mu * (2 / r - 1 / a)) ≠ 0 := (Real.sqrt_pos.mpr hv).ne'
+  simp only [infosCosFpa, infosSinFpa, infosV, powi, sqrt, cos, sin]
+  field_simp
+
+/-- vis-viva and energy: `infos.v² = µ(2/r − 1/a)` and `infos.energy = v²/2 − µ/r` -/
+theorem infos_visviva_energy (mu r a e nu : ℝ) (hr : r ≠ 0) (ha : a ≠ 0) (hv : 0 ≤ mu * (2 / r - 1 / a)) :
+    infosV mu r a e nu ^ 2 = mu * (2 / r - 1 / a) ∧ infosEnergy mu r a e nu = infosV mu r a e nu ^ 2 / 2 - mu / r := by
+  simp only [infosV, infosEnergy, sqrt, Real.sq_sqrt hv]
+  refine ⟨trivial, ?_⟩
+  field_simp; ring
+
+/-- Kepler's third law and the period (`a > 0`): `n² a³ = µ`, `period · n = 2π` -/
+theorem infos_period (mu r a e nu : ℝ) (hmu : 0 < mu) (ha : 0 < a) :
+    infosN mu r a e nu ^ 2 * a ^ 3 = mu ∧ infosPeriod mu r a e nu * infosN mu r a e nu = 2 * Real.pi := by
+  have h3 : 0 < mu / a ^ 3 := by positivity
+  have hn : Real.sqrt (mu / a ^ 3) ≠ 0 := (Real.sqrt_pos.mpr h3).ne'
+  simp only [infosN, infosPeriod, powi, sqrt, absR, pi, abs_of_pos ha]
+  refine ⟨?_, ?_⟩
+  · rw [Real.sq_sqrt h3.le]; field_simp
+  · field_simp
+
+/-- apsides: `rp + ra = 2a`, `rp · ra = a · p`, and the speeds at the apsides conserve angular momentum
+(`(vp · rp)² = µ p = (va · ra)²`) for `0 ≤ e < 1`, `a > 0` -/
+theorem infos_apsides (mu r a e nu : ℝ) (hmu : 0 < mu) (ha : 0 < a) (h0 : 0 ≤ e) (h1 : e < 1) :
+    infosPericenter mu r a e nu + infosApocenter mu r a e nu = 2 * a ∧
+    infosPericenter mu r a e nu * infosApocenter mu r a e nu = a * (a * (1 - e ^ 2)) ∧
+    (infosVp mu r a e nu * infosPericenter mu r a e nu) ^ 2 = mu * (a * (1 - e ^ 2)) ∧
+    (infosVa mu r a e nu * infosApocenter mu r a e nu) ^ 2 = mu * (a * (1 - e ^ 2)) := by
+  have hm : 0 < 1 - e := by linarith
+  have hp : 0 < 1 + e := by linarith
+  have hvp : 0 ≤ mu * (2 / (a * (1 - e)) - 1 / a) := by
+    have : mu * (2 / (a * (1 - e)) - 1 / a) = mu * (1 + e) / (a * (1 - e)) := by field_simp; ring
+    rw [this]; positivity
+  have hva : 0 ≤ mu * (2 / (a * (1 + e)) - 1 / a) := by
+    have : mu * (2 / (a * (1 + e)) - 1 / a) = mu * (1 - e) / (a * (1 + e)) := by field_simp; ring
+    rw [this]; positivity
+  simp only [infosPericenter, infosApocenter, infosVp, infosVa, sqrt, mul_pow, Real.sq_sqrt hvp, Real.sq_sqrt hva]
+  refine ⟨by ring, by ring, ?_, ?_⟩
+  · field_simp; ring
+  · field_simp; ring
+
+/-- hyperbolic excess speed and asymptote distance (`a < 0`, `e > 1`): `vinf² = 2·energy`, `dinf = |a| √(e²−1)` -/
+theorem infos_hyperbolic (mu r a e nu : ℝ) (hmu : 0 < mu) (ha : a < 0) (h1 : 1 < e) :
+    infosVinf mu r a e nu ^ 2 = 2 * infosEnergy mu r a e nu ∧ infosDinf mu r a e nu ^ 2 = a ^ 2 * (e ^ 2 - 1) := by
+  have hna : 0 < -a := by linarith
+  have h3 : 0 ≤ mu / -a := by positivity
+  have he : 0 ≤ 1 - (1 / e) ^ 2 := by
+    have : (1 / e) ^ 2 ≤ 1 := by rw [div_pow, one_pow, div_le_one (by positivity)]; nlinarith
+    linarith
+  simp only [infosVinf, infosEnergy, infosDinf, powi, sqrt, absR, abs_of_neg ha, mul_pow, Real.sq_sqrt h3, Real.sq_sqrt he, sq_abs]
+  have hane : a ≠ 0 := ha.ne
+  have hene : e ≠ 0 := by linarith
+  refine ⟨?_, ?_⟩
+  · field_simp
+  · field_simp
+
 end BeyondVerif.C01
